@@ -20,8 +20,52 @@ fn ns_mode() -> i32 {
     0
 }
 
+fn hex(s: &str) -> String {
+    let mut o = String::from("x");
+    for b in s.as_bytes() {
+        o.push_str(&format!("{:02x}", b));
+    }
+    o
+}
+
+/// "resolve" mode: each stdin line is "<base>\u{1f}<reference>" (escaped). Prints, hex-encoded and space-separated, what the
+/// four resolving entry points of sophia_iri return: Iri::resolve, IriRef::resolve, Iri::as_base().resolve,
+/// Iri::as_base().resolve_into — or "n/a" when base / reference are not accepted, "panic" when one of them panics.
+fn resolve_mode() -> i32 {
+    for line in io::stdin().lock().lines() {
+        let s = unescape(&line.unwrap());
+        let mut it = s.splitn(2, '\u{1f}');
+        let base = it.next().unwrap_or("").to_string();
+        let rel = it.next().unwrap_or("").to_string();
+        if sophia_iri::Iri::new(base.as_str()).is_err() || sophia_iri::IriRef::new(rel.as_str()).is_err() {
+            println!("n/a");
+            continue;
+        }
+        let r = panic::catch_unwind(move || {
+            let b = sophia_iri::Iri::new(base.as_str()).unwrap();
+            let br = sophia_iri::IriRef::new(base.as_str()).unwrap();
+            let r = sophia_iri::IriRef::new(rel.as_str()).unwrap();
+            let r1 = b.resolve(r);
+            let r2 = br.resolve(r);
+            let r3 = b.as_base().resolve(r);
+            let mut buf = String::new();
+            let bb = b.as_base();
+            let r4 = bb.resolve_into(r, &mut buf).as_str().to_string();
+            format!("{} {} {} {}", hex(r1.as_str()), hex(r2.as_str()), hex(r3.as_str()), hex(&r4))
+        });
+        match r {
+            Ok(l) => println!("{l}"),
+            Err(_) => println!("panic"),
+        }
+    }
+    0
+}
+
 pub fn main(args: &[String]) -> i32 {
     panic::set_hook(Box::new(|_| {}));
+    if args.first().map(String::as_str) == Some("resolve") {
+        return resolve_mode();
+    }
     if args.first().map(String::as_str) == Some("ns") {
         return ns_mode();
     }
